@@ -890,6 +890,8 @@ def run(tier):
             # generator and step structure (C01's K5) are part of "the same function"
             from . import c01
             c01.k5(prog, rep)
+            # ... and its tables are filled before use in the configuration without the accelerated sibling too
+            c01.k5_tables_ready(rep)
             # the implementations differ in which scratch they use (SHA-NI leaves W/S alone, the portable and SSE2 transforms
             # overwrite them): regions handed to the transform's helpers are disjoint, or the subsets disagree (C01's K7)
             if "alg/sha256.c" in prog.units:
@@ -899,6 +901,7 @@ def run(tier):
             from . import c02
             c02.l1_l3(prog, rep)
             c02.l2_l4(prog, rep)
+            c02.l8_inplace(prog, rep)
         else:
             # in a reduced configuration: accelerated units whose feature is absent define nothing, and the rules hold on what remains
             feats = set(cfg.features)
